@@ -21,29 +21,33 @@ def hash_apply(it, st, algo, vals):
     if not it.ctx.hash_injective:
         it.ctx.assumptions.add(f'{algo} is an uninterpreted function of its input bytes (functional consistency only)')
         return res
-    # collision freedom against every earlier application on this path
-    key = ('HASHAPPS', algo)
-    apps = st.heap.get(key, ())
-    n = len(vals)
-    for (n2, args2, out2) in apps:
-        if out2 is out or (is_sym(out2) and out2.eq(out)):
-            continue
-        if n2 != n:
-            c = out != out2
-        else:
-            same = AndL(eqv8(a, b) for a, b in zip(vals, args2))
-            same = to_bool(same)
-            if same is True:
-                continue
-            c = (out != out2) if same is False else z3.Or(same, out != out2)
-        c = z3.simplify(c)
-        if z3.is_true(c):
-            continue
-        # an instance of the (global) injectivity axiom of the ideal hash: valid on every path
-        it.ctx.axioms.append(c)
-    st.heap[key] = apps + ((n, tuple(vals), out),)
+    inject(it, algo, vals, out, outbits)
     it.ctx.assumptions.add(f'{algo} is an ideal hash: an uninterpreted function of its input bytes with collision freedom (different inputs give different digests)')
     return res
+
+
+def inject(it, algo, vals, out, outbits):
+    """injectivity of an ideal hash / signature through uninterpreted LEFT INVERSES: for every application
+    out = F(args) assert inv_i(out) = args[i] and invlen(out) = len(args).  Linear in the number of
+    applications, and equal outputs then force equal inputs (of equal length)."""
+    key = (algo, out.get_id() if is_sym(out) else out)
+    done = it.uf.setdefault('INJ', {})
+    if key in done:
+        return
+    done[key] = out   # keeps the term alive
+    n = len(vals)
+    o = out if is_sym(out) else z3.BitVecVal(out, outbits)
+    cs = []
+    ln = it.uf.get(('invlen', algo))
+    if ln is None:
+        ln = it.uf[('invlen', algo)] = z3.Function(f'UF_invlen_{algo}', z3.BitVecSort(outbits), z3.BitVecSort(32))
+    cs.append(ln(o) == n)
+    for i, v in enumerate(vals):
+        f = it.uf.get(('inv', algo, i))
+        if f is None:
+            f = it.uf[('inv', algo, i)] = z3.Function(f'UF_inv_{algo}_{i}', z3.BitVecSort(outbits), z3.BitVecSort(8))
+        cs.append(f(o) == bv(v, 8))
+    it.ctx.axioms.append(z3.And(*cs))
 
 
 def new_hash(algo):
@@ -261,3 +265,217 @@ def s_makenozero(it, st, args, fname):
 @I.reg('strings.Clone')
 def s_clone(it, st, args, fname):
     return ret(st, args[0])
+
+
+# ------------------------------------------------------------------ ed25519 (ideal signature)
+
+def _sig(it, st, pub, msg):
+    vals = list(pub) + list(msg)
+    out = uf_bytes(it, 'UF_ed25519sig', vals, 512)
+    if it.ctx.hash_injective:
+        inject(it, 'ed25519sig', vals, out, 512)
+    it.ctx.assumptions.add('ed25519 is an ideal signature scheme: Sign is an uninterpreted function of (public key, message); Verify accepts exactly that value')
+    return [z3.Extract(511 - 8 * i, 504 - 8 * i, out) for i in range(64)]
+
+
+@I.reg('crypto/ed25519.Sign')
+def ed_sign(it, st, args, fname):
+    priv, msg = args
+    it.vc(st, eqv64(priv.len, 64), 'ed25519.Sign:bad-private-key-length')
+    pv = it.slice_values(st, priv, 'private key')
+    mv = it.slice_values(st, msg, 'signed message') if msg.obj is not None else []
+    return ret(st, it.make_slice(st, 'uint8', _sig(it, st, pv[32:64], mv)))
+
+
+@I.reg('crypto/ed25519.Verify')
+def ed_verify(it, st, args, fname):
+    pub, msg, sig = args
+    it.vc(st, eqv64(pub.len, 32), 'ed25519.Verify:bad-public-key-length')
+    pv = it.slice_values(st, pub, 'public key')
+    mv = it.slice_values(st, msg, 'verified message') if msg.obj is not None else []
+    n = it.concrete_int(st, sig.len, 'signature length') if sig.obj is not None else 0
+    if n != 64:
+        return ret(st, False)
+    sv = it.slice_values(st, sig, 'signature')
+    want = _sig(it, st, pv, mv)
+    return ret(st, AndL(eqv8(a, b) for a, b in zip(sv, want)))
+
+
+@I.reg('(crypto/ed25519.PrivateKey).Public')
+def ed_public(it, st, args, fname):
+    priv = args[0]
+    it.vc(st, eqv64(priv.len, 64), 'ed25519.Public:bad-private-key-length')
+    pub = Slice(priv.obj, priv.path, simp_i(add64(priv.off, 32)), 32, 32)
+    # an independent copy, like the real function
+    vals = it.slice_values(st, pub, 'public key')
+    return ret(st, Iface('crypto/ed25519.PublicKey', it.make_slice(st, 'uint8', vals)))
+
+
+@I.reg('crypto/ed25519.NewKeyFromSeed')
+def ed_newkey(it, st, args, fname):
+    seed = it.slice_values(st, args[0], 'seed')
+    out = uf_bytes(it, 'UF_ed25519pub', seed, 256)
+    pub = [z3.Extract(255 - 8 * i, 248 - 8 * i, out) for i in range(32)]
+    return ret(st, it.make_slice(st, 'uint8', seed + pub))
+
+
+# ------------------------------------------------------------------ time: (seconds, nanoseconds) pairs, symbolic non-decreasing clock
+
+def mk_time(sec, nsec):
+    t = E.ty('time.Time')
+    vals = []
+    for f in t['fields']:
+        if f['name'] == 'wall':
+            vals.append(nsec)
+        elif f['name'] == 'ext':
+            vals.append(sec)
+        else:
+            vals.append(None)
+    return tuple(vals)
+
+
+def time_parts(tv):
+    t = E.ty('time.Time')
+    sec = nsec = 0
+    for f, v in zip(t['fields'], tv):
+        if f['name'] == 'wall':
+            nsec = v
+        elif f['name'] == 'ext':
+            sec = v
+    return sec, nsec
+
+
+@I.reg('time.Unix')
+def t_unix(it, st, args, fname):
+    it.ctx.assumptions.add('time.Time is modelled as (seconds, nanoseconds); time.Unix(sec, nsec) is used with 0 <= nsec < 1e9')
+    return ret(st, mk_time(args[0], args[1]))
+
+
+@I.reg('(time.Time).Unix')
+def t_time_unix(it, st, args, fname):
+    return ret(st, time_parts(args[0])[0])
+
+
+@I.reg('time.Now')
+def t_now(it, st, args, fname):
+    from intrinsics import nd_bv
+    last = st.heap.get(('CLOCK',), None)
+    sec = nd_bv(st, 'clock-sec', 64)
+    nsec = nd_bv(st, 'clock-nsec', 64)
+    st.pc.append(z3.And(sec >= 0, sec < (1 << 40), nsec >= 0, nsec < 1000000000))
+    if last is not None:
+        ls, ln = last
+        st.pc.append(z3.Or(sec > bv(ls, 64), z3.And(sec == bv(ls, 64), nsec >= bv(ln, 64))))
+    st.heap[('CLOCK',)] = (sec, nsec)
+    it.ctx.assumptions.add('time.Now returns an arbitrary non-decreasing instant (seconds < 2^40)')
+    return ret(st, mk_time(sec, nsec))
+
+
+def dur(a, b):
+    """a - b as nanoseconds (Duration)"""
+    s1, n1 = time_parts(a)
+    s2, n2 = time_parts(b)
+    return simp_i(add64(mul64(sub64(s1, s2), 1000000000), sub64(n1, n2)))
+
+
+def mul64(a, c):
+    if not is_sym(a):
+        return mask(tosigned(a, 64) * c, 64)
+    return a * z3.BitVecVal(c, 64)
+
+
+@I.reg('(time.Time).Sub')
+def t_sub(it, st, args, fname):
+    return ret(st, dur(args[0], args[1]))
+
+
+@I.reg('time.Since')
+def t_since(it, st, args, fname):
+    now = t_now(it, st, [], 'time.Now')[0][1]
+    return ret(st, dur(now, args[0]))
+
+
+@I.reg('time.Sleep')
+def t_sleep(it, st, args, fname):
+    # the clock advances by at least d: enforced on the next reading through the stored last instant
+    last = st.heap.get(('CLOCK',), None)
+    d = args[0]
+    if last is not None:
+        ls, ln = last
+        # advance the lower bound by whole seconds only when d is concrete; otherwise keep monotonicity
+        if not is_sym(d):
+            tot = tosigned(d, 64)
+            st.heap[('CLOCK',)] = (simp_i(add64(ls, tot // 1000000000)), ln)
+    return ret(st)
+
+
+@I.reg('(time.Time).Add')
+def t_add(it, st, args, fname):
+    s, n = time_parts(args[0])
+    d = args[1]
+    if not is_sym(d):
+        dd = tosigned(d, 64)
+        ds, dn = divmod(dd, 1000000000)
+        if is_sym(n) or (n + dn) >= 1000000000:
+            if is_sym(n):
+                carry = z3.If(bv(n, 64) + dn >= 1000000000, z3.BitVecVal(1, 64), z3.BitVecVal(0, 64))
+                return ret(st, mk_time(simp_i(add64(add64(s, ds), carry)), simp_i(z3.If(carry == 1, bv(n, 64) + dn - 1000000000, bv(n, 64) + dn))))
+            return ret(st, mk_time(add64(s, ds + 1), n + dn - 1000000000))
+        return ret(st, mk_time(add64(s, ds), n + dn))
+    raise Unsupported('time.Add of a symbolic duration')
+
+
+@I.reg('(time.Time).Before')
+def t_before(it, st, args, fname):
+    d = dur(args[0], args[1])
+    return ret(st, slt(d, 0))
+
+
+@I.reg('(time.Time).After')
+def t_after(it, st, args, fname):
+    d = dur(args[0], args[1])
+    return ret(st, slt(0, d))
+
+
+@I.reg('(time.Time).IsZero')
+def t_iszero(it, st, args, fname):
+    s, n = time_parts(args[0])
+    return ret(st, And(eqv64(s, 0), eqv64(n, 0)))
+
+
+# ------------------------------------------------------------------ context (a context is an opaque token; harness stubs ignore it)
+
+@I.reg('context.Background')
+@I.reg('context.TODO')
+def ctx_background(it, st, args, fname):
+    return ret(st, Iface('$ctx', None))
+
+
+@I.reg('(time.Time).UTC')
+@I.reg('(time.Time).Local')
+@I.reg('(time.Time).Round')
+@I.reg('(time.Time).Truncate')
+def t_utc(it, st, args, fname):
+    if fname.endswith('Round') or fname.endswith('Truncate'):
+        raise Unsupported(fname)
+    return ret(st, args[0])
+
+
+@I.reg('math/rand.Uint32')
+@I.reg('math/rand.Int31')
+def rand_u32(it, st, args, fname):
+    from intrinsics import nd_bv
+    v = nd_bv(st, 'rand32', 32)
+    if fname.endswith('Int31'):
+        v = v & 0x7fffffff
+    return ret(st, v)
+
+
+@I.reg('math/rand.Uint64')
+@I.reg('math/rand.Int63')
+def rand_u64(it, st, args, fname):
+    from intrinsics import nd_bv
+    v = nd_bv(st, 'rand64', 64)
+    if fname.endswith('Int63'):
+        v = v & 0x7fffffffffffffff
+    return ret(st, v)
